@@ -244,6 +244,8 @@ impl AlternateTime {
             + i64::from(self.std.ut_offset)
             - i64::from(self.dst.ut_offset);
 
+        // `Ambiguous` is `(earliest, latest)`: a repeated local time occurs first with the
+        // offset in force before the transition (the larger one).
         match self.std.ut_offset.cmp(&self.dst.ut_offset) {
             Ordering::Equal => Ok(crate::MappedLocalTime::Single(self.std)),
             Ordering::Less => {
@@ -265,7 +267,7 @@ impl AlternateTime {
                     } else if local_time >= dst_end_transition_end
                         && local_time <= dst_end_transition_start
                     {
-                        Ok(crate::MappedLocalTime::Ambiguous(self.std, self.dst))
+                        Ok(crate::MappedLocalTime::Ambiguous(self.dst, self.std))
                     } else {
                         Ok(crate::MappedLocalTime::Single(self.std))
                     }
@@ -277,7 +279,7 @@ impl AlternateTime {
                     } else if local_time >= dst_end_transition_end
                         && local_time <= dst_end_transition_start
                     {
-                        Ok(crate::MappedLocalTime::Ambiguous(self.std, self.dst))
+                        Ok(crate::MappedLocalTime::Ambiguous(self.dst, self.std))
                     } else if local_time > dst_end_transition_end
                         && local_time < dst_start_transition_start
                     {
@@ -302,7 +304,7 @@ impl AlternateTime {
                     } else if local_time >= dst_start_transition_end
                         && local_time <= dst_start_transition_start
                     {
-                        Ok(crate::MappedLocalTime::Ambiguous(self.dst, self.std))
+                        Ok(crate::MappedLocalTime::Ambiguous(self.std, self.dst))
                     } else if local_time > dst_start_transition_start
                         && local_time < dst_end_transition_start
                     {
@@ -330,7 +332,7 @@ impl AlternateTime {
                     } else if local_time >= dst_start_transition_end
                         && local_time <= dst_start_transition_start
                     {
-                        Ok(crate::MappedLocalTime::Ambiguous(self.dst, self.std))
+                        Ok(crate::MappedLocalTime::Ambiguous(self.std, self.dst))
                     } else {
                         Ok(crate::MappedLocalTime::Single(self.dst))
                     }
